@@ -7,7 +7,10 @@ package main
 import (
 	"context"
 	"fmt"
+	"github.com/jackc/pgx/v4"
 	"sort"
+	"sync"
+	"time"
 
 	"github.com/ethereum/go-ethereum/common"
 
@@ -42,8 +45,120 @@ func main() {
 			agg.Require("published", 1000)
 			agg.Require("ticks_with_refusal", 100)
 			agg.Require("concurrent_histories", 100)
+			agg.Require("loop_histories", 20)
 		},
 	})
+}
+
+const sentinelEon = 1 << 40
+
+// loopCase runs the real polling loop (short interval) against a publication mechanism that
+// accepts every key but takes several intervals per key (an unbuffered channel into a busy event
+// loop). Several keys become pending in one interval. Quiescence is decided logically: a sentinel
+// key recorded after the batch has been taken from the table is published only after the loop is
+// done with the batch; then every key of the batch must have been handed over exactly once.
+func loopCase(ctx context.Context, env *vlib.Env, idx int, r *vlib.Rng, rep *vlib.Reporter, node *dbfix.Node, kp *fixtures.Keypers,
+	q *database.Queries, h *keyper.VerifEonPubKeyHandler, broadcast bool, rec *dbfix.RecMessaging, cbGot *[]pub, cbDelay *time.Duration, me int,
+) {
+	if broadcast {
+		// the broadcast path has no slow consumer in this harness; use the callback flavour
+		return
+	}
+	const tick = 10 * time.Millisecond
+	*cbDelay = 4 * tick
+	nKeys := 2 + r.Intn(3)
+	var want []pub
+	act := int64(100)
+	if err := dbfix.InsertKeyperSet(ctx, node.Pool, 1, act, append([]common.Address{}, kp.Addrs...), 2, false); err != nil {
+		rep.Inconclusive("insert keyper set: " + err.Error())
+		return
+	}
+	for e := int64(1); e <= int64(nKeys); e++ {
+		if err := dbfix.InsertEon(ctx, node.Pool, e, 10*e, act, 1); err != nil {
+			rep.Inconclusive("insert eon: " + err.Error())
+			return
+		}
+		want = append(want, pub{uint64(e), uint64(act), 1, string(r.Bytes(96))})
+	}
+	if err := dbfix.InsertEon(ctx, node.Pool, sentinelEon, 5, act, 1); err != nil {
+		rep.Inconclusive("insert eon: " + err.Error())
+		return
+	}
+	lctx, cancel := context.WithCancel(ctx)
+	done := make(chan error, 1)
+	go func() { done <- h.VerifLoop(lctx, tick) }()
+	defer func() { cancel(); <-done }()
+	// all keys of the batch become pending together (one transaction)
+	err := node.Pool.BeginFunc(ctx, func(tx pgx.Tx) error {
+		for _, p := range want {
+			if err := database.New(tx).InsertEonPublicKey(ctx, database.InsertEonPublicKeyParams{EonPublicKey: []byte(p.Key), Eon: int64(p.Eon)}); err != nil {
+				return err
+			}
+		}
+		return nil
+	})
+	if err != nil {
+		rep.Inconclusive("insert keys: " + err.Error())
+		return
+	}
+	// wait (generous watchdog, not a verdict) until the loop has taken the batch, then record the sentinel
+	waitFor := func(cond func() bool) bool {
+		for i := 0; i < 6000; i++ {
+			if cond() {
+				return true
+			}
+			time.Sleep(5 * time.Millisecond)
+		}
+		return false
+	}
+	if !waitFor(func() bool { return len(node.DB.Snapshot().Rows("outgoing_eon_keys")) == 0 }) {
+		rep.Inconclusive("the polling loop did not take the pending keys within 30 s")
+		return
+	}
+	if err := q.InsertEonPublicKey(ctx, database.InsertEonPublicKeyParams{EonPublicKey: []byte("sentinel"), Eon: sentinelEon}); err != nil {
+		rep.Inconclusive("insert sentinel: " + err.Error())
+		return
+	}
+	var mu sync.Mutex
+	_ = mu
+	sentinelSeen := func() bool {
+		for _, p := range snapshotPubs(cbGot) {
+			if p.Eon == sentinelEon {
+				return true
+			}
+		}
+		return false
+	}
+	if !waitFor(sentinelSeen) {
+		rep.Inconclusive("the sentinel key was not published within 30 s")
+		return
+	}
+	var got []pub
+	for _, p := range snapshotPubs(cbGot) {
+		if p.Eon != sentinelEon {
+			got = append(got, p)
+		}
+	}
+	rep.Obs("loop_histories", 1)
+	rep.Obs("published", int64(len(got)))
+	rep.Eval(fmt.Sprintf("loop/%d keys/%d", nKeys, idx), true)
+	if render(want) != render(got) {
+		missing, extra := diff(want, got)
+		key := "lost-key"
+		if len(missing) == 0 {
+			key = "duplicate-or-wrong-publication"
+		}
+		rep.Violationf(key, map[string]any{"mode": "real loop, slow accepting consumer", "recorded": len(want), "published": len(got), "missing": missing, "unexpected": extra},
+			"real polling loop with a slow consumer: %d keys pending in one interval, %d published; missing %d, unexpected %d", len(want), len(got), len(missing), len(extra))
+	}
+}
+
+var pubMu sync.Mutex
+
+func snapshotPubs(p *[]pub) []pub {
+	pubMu.Lock()
+	defer pubMu.Unlock()
+	return append([]pub(nil), (*p)...)
 }
 
 // concurrentCase: key generations are recorded by one goroutine while the polling step runs in
@@ -174,12 +289,22 @@ func runCase(env *vlib.Env, idx int, rep *vlib.Reporter) {
 		return nil
 	}
 	var cbGot []pub
-	cb := func(_ context.Context, k keyper.EonPublicKey) error {
+	var cbDelay time.Duration // a slow but accepting publication mechanism (loop family)
+	cb := func(cctx context.Context, k keyper.EonPublicKey) error {
+		if cbDelay > 0 && k.Eon < sentinelEon {
+			select {
+			case <-time.After(cbDelay):
+			case <-cctx.Done():
+				return cctx.Err()
+			}
+		}
 		offered++
 		if refused[k.Eon] {
 			return fmt.Errorf("publication refused")
 		}
+		pubMu.Lock()
 		cbGot = append(cbGot, pub{k.Eon, k.ActivationBlock, k.KeyperConfigIndex, string(k.PublicKey)})
+		pubMu.Unlock()
 		return nil
 	}
 	var h *keyper.VerifEonPubKeyHandler
@@ -190,6 +315,10 @@ func runCase(env *vlib.Env, idx int, rep *vlib.Reporter) {
 	}
 	q := database.New(node.Pool)
 	var want []pub
+	if idx%120 == 3 {
+		loopCase(ctx, env, idx, r, rep, node, kp, q, h, broadcast, rec, &cbGot, &cbDelay, me)
+		return
+	}
 	if idx%6 == 1 {
 		concurrentCase(ctx, env, idx, r, rep, node, kp, q, h, broadcast, rec, &cbGot, me)
 		return
